@@ -146,10 +146,9 @@ def guess_carried_scalar_type(col) -> type:
     good_idx = numpy.where(
         numpy.logical_not(data_algebra.data_model.default_data_model().pd.isna(col))
     )[0]
-    test_idx = 0
-    if len(good_idx) > 0:
-        test_idx = good_idx[0]
-    return map_type_to_canonical(type(col[test_idx]))
+    if len(good_idx) < 1:
+        return type(None)  # all entries missing: no type carried (a NaN is not evidence of a float column)
+    return map_type_to_canonical(type(col[good_idx[0]]))
 
 
 def guess_column_types(
